@@ -4,6 +4,13 @@ import Sessions.FactsIrHandlers
 import Sessions.FactsIrLogin
 import Sessions.FactsIrStart
 import Sessions.FactsIrStartRun
+import Sessions.FactsIrStartA
+import Sessions.FactsIrStartB
+import Sessions.FactsIrStartC
+import Sessions.FactsIrStartD
+import Sessions.FactsIrStartE
+import Sessions.FactsIrStartF
+import Sessions.FactsIrStartG
 /-! All equivalence theorems between the translated Go functions (`Facts.ir_*`, regenerated) and the model, with their axioms. -/
 #print axioms FactsIr.regenerateID_eq
 #print axioms FactsIr.destroy_eq_model
@@ -20,3 +27,13 @@ import Sessions.FactsIrStartRun
 #print axioms FactsIr.start_create_block_partial
 #print axioms FactsIr.runs_append
 #print axioms FactsIr.start_shape
+#print axioms FactsIr.start_blocks
+#print axioms FactsIr.execP_start
+#print axioms FactsIr.start_nocookie_eq
+#print axioms FactsIr.start_wronglen_eq
+#print axioms FactsIr.start_geterr_eq
+#print axioms FactsIr.start_unknown_eq
+#print axioms FactsIr.start_invalid_eq
+#print axioms FactsIr.start_valid_plain_eq
+#print axioms FactsIr.start_rotate_eq
+#print axioms FactsIr.start_ref_expired_eq
